@@ -12,6 +12,12 @@ CHECKS = {
  'C14': ('Symbolic independent payload values on one or two queued requests (each with or without payload); guards, enter() callbacks, previousTransitions() and lastTransitionTo() must expose exactly each request\'s own payload.', '4 C14'),
  'C15': ('Product program: the same machine compiled under two configurations (base vs base + one feature / all-on / development headers), symbol-prefixed and linked into one harness; one symbolic Inv pre-state and one API entry with shared per-callback decisions must give identical callback sequences and configurations.', '4 C15'),
  'C17': ('Per structure of an enumerated family: constexpr numbering/counts of the real templates and the run-time tables built by deepRegister() against an independent computation from the structure term, for a symbolic state/region/fork index.', '4 C17'),
+ 'C06': ('A symbolic plan (0..2 tasks, symbolic origin/destination/kind, built through the real Plan calls) on the root region, one update() in which the head and the active sub-state symbolically succeed/fail: which tasks fire, what is removed, the order and origin of the recorded transitions and planSucceeded/planFailed delivery are compared with an oracle written from the statement.', '4 C06'),
+ 'C09': ('One symbolic request with approving/vetoing/substituting guards: previousTransitions() equals the concatenation of the approved rounds, lastTransitionTo() points into it, and a struct-copied replica fed the list through the real replayTransitions() reaches the same forks without consulting a guard (replayEnter in the thorough tier).', '4 C09'),
+ 'C11': ('CBMC standard checks (bounds, pointers, pointer arithmetic, shifts, signed overflow, division) ON over one symbolic step of every API entry from every Inv state with request budgets beyond every capacity, guard bands around the instance, the library assertions compiled in via the HFSM2_VERIF hook; the translated unit references no allocator.', '4 C11'),
+ 'C12': ('Full-range symbolic IEEE-754 utilities, ranks and generator output: utilize() picks the leftmost argmax of the recursive utility; randomize() always picks a top-rank positive-utility sub-state whose cumulative interval contains r*sum (stated float slack), one random number per region.', '4 C12'),
+ 'C13': ('For every Inv state the activity/resumable/scheduled queries agree with the fork arrays and each other; for one symbolic request of each kind the isPendingEnter/Exit/Change answers read in every guard are compared with the enter/exit callbacks the approved round performs; outside processing all are false.', '4 C13'),
+ 'C16': ('The real LoggerInterfaceT subclass reached through its translated vtable: every callback is preceded by its recordMethod, every request/cancellation/select produces exactly one matching record, a detached logger receives nothing; the structure report matches isActive() and the saturating activity counters after a symbolic step.', '4 C16'),
  'C01': ('One-step inductive check on the real templates instantiated for a fixture family: from EVERY configuration satisfying the representation invariant Inv (symbolic fork arrays), one public API entry (update, immediate* of every kind to every state, reset, queued requests + update, constructor path) with nondeterministic guard/update callbacks (approve/cancel/substitute/request any kind to any state) preserves Inv, keeps the forks well-formed inside every callback, and the API-level statement (isActive/activeSubState) holds for every Inv state.', '4 C01'),
  'C02': ('Full equality of the (active, resumable) vectors produced by the real processTransitions with a reference model written from the statement (sequential application of the batch on the pending configuration, kind-driven recursive resolution, schedule, later-overrides-earlier), for every Inv pre-state, every request kind, every destination (case split) and batches of 2 (3 in thorough); reset() and no-request processing included.', '4 C02'),
  'C03': ('Lifecycle monitor automaton in the callback stub (enter/exit alternate, parent-before-child nesting, callbacks only on entered states, this == access<State>()) over one symbolic step from every Inv state, plus whole-life runs construct -> step -> destroy / enter() -> step -> exit() (Manual).', '4 C03'),
@@ -22,7 +28,7 @@ CHECKS = {
  'C19': ('TaskListT<void|payload,C> for C in {1,2,3,5}: every bounded sequence of symbolic insert/remove/clear from the empty pool AND a one-step inductive query from every pool state satisfying the representation invariant (covers histories of any length per capacity); DynamicArrayT/StaticArrayT against ghost sequences.', '4 C19'),
  'C20': ('Every bundled generator kernel is symbolically executed from the IR of the real header and compared, for ALL 32/64-bit seeds and ALL 128/256-bit states, with reference implementations written from the published splitmix/xoshiro algorithms (step, jump, seeding never all-zero, [0,1) range, storage-independent construction). Bounded only by the jump()/retry loop unwindings, which are checked by unwinding assertions.', '4 C20'),
 }
-READY = {'C03', 'C05', 'C07', 'C08', 'C10', 'C14', 'C15', 'C17', 'C18', 'C19', 'C20'}
+READY = set(CHECKS)
 PENDING = {}
 def main():
     props = [json.loads(l) for l in open(os.path.join(HERE, 'properties.jsonl'))]
@@ -39,7 +45,7 @@ def main():
             na.append(dict(property_id=pid, reason=PENDING.get(pid, 'check not yet built in this revision of /verif (work in progress, see DESIGN.md section 4); no claim is made')))
     m = dict(version=1, setup_cmd='python3 setup_check.py',
              hooks=dict(guard='HFSM2_VERIF', enable='-DHFSM2_VERIF -DHFSM2_ENABLE_ASSERT on the fixture translation units (C11)', baseline_off_cmd='bash run_baseline.sh',
-                        source_commits=[], add_only=True),
+                        source_commits=['7803fb392f3b07a95b32bb1b82c4a23b77b98cd2'], add_only=True),
              engines=[dict(name='cbmc-on-ir', path='vlib/', serves_properties=sorted(CHECKS), kind_free_text='clang-14 LLVM IR of the real header -> C (vlib/ll2c.py) -> cbmc 6.11 (cadical/kissat/minisat/cvc5); native replay with g++')],
              checks=checks, not_applicable=na,
              notes='All checks regenerate IR, C and harness objects from /repo\'s working tree on every run. Exit 0 = held on everything explored; 1 = VIOLATION line; 2 = machinery fault (never reported as a violation).')
